@@ -1,1 +1,299 @@
-/-! Property theorems for C08 — placeholder until the property's model is built. -/
+import FcpptProofs.C08.Order
+/-!
+# C08 — property theorems
+
+Positions, dimensions, `min` and `sup` of static size `N` are lists of length `N` (index 0 fastest);
+every theorem is for **every** `N ≥ 1` and every size — the code's `N ∈ {1,2,3}` with extents `0..4`
+are instances.  Specification vocabulary (`FcpptModel/Spec/C08.lean`): `InBox mn sp p` (component-wise
+`mn ≤ p < sp`), `InRange d p` (`InBox 0 d p`), `box mn sp` (the positions of the half-open box, first
+coordinate fastest), `lin` (Horner form of the row-major index), `prod`, `ints lo n = [lo, …, lo+n-1]`.
+`Denotes g v` (FcpptProofs/C08/GridLemmas.lean): the grid has a legal size and its cells are the values
+`v p` for the in-range positions `p` (`denotes_iff`: exactly what `get_unsafe` observes).
+Only theorems live in this file; lemmas are in `FcpptProofs/C08/`.
+-/
+namespace Fcppt.C08
+
+/-! ## `dim::contents`, `offset` -/
+
+/-- `contents` is the product of the extents. -/
+theorem contents_is_product (d : List Int) : contents d = prod d := contents_eq_prod d
+
+/-- the stride-accumulating fold of `offset` computes the row-major index `p0 + d0*(p1 + d1*(…))`. -/
+theorem offset_is_row_major (p d : List Int) (h : p.length = d.length) : offset p d = lin p d :=
+  offset_eq_lin p d h
+
+/-- an in-range position has an offset in `[0, content)`. -/
+theorem offset_lt {d p : Pos} (h : InRange d p) : 0 ≤ offset p d ∧ offset p d < contents d := by
+  have := linR_inBox h
+  rw [linR_zeros d p (inRange_length h), count_zeros d (inRange_nonNeg_size h)] at this
+  rw [offset_eq_lin p d (inRange_length h).symm, contents_eq_prod]
+  exact this
+
+/-- different in-range positions have different offsets. -/
+theorem offset_inj {d p q : Pos} (hp : InRange d p) (hq : InRange d q) (h : offset p d = offset q d) : p = q := by
+  rw [offset_eq_lin p d (inRange_length hp).symm, offset_eq_lin q d (inRange_length hq).symm] at h
+  apply linR_inj hp hq
+  rw [linR_zeros d p (inRange_length hp), linR_zeros d q (inRange_length hq), h]
+
+/-- every `k` in `[0, content)` is the offset of an in-range position: with `offset_lt` and
+    `offset_inj`, `offset` is a bijection between the in-range positions and `[0, content)`. -/
+theorem offset_surj {d : List Int} (hd : NonNeg d) {k : Int} (h0 : 0 ≤ k) (h1 : k < contents d) :
+    ∃ p, InRange d p ∧ offset p d = k := by
+  rw [contents_eq_prod, ← count_zeros d hd] at h1
+  obtain ⟨p, hp, hk⟩ := linR_surj (length_zeros d) k h0 h1
+  refine ⟨p, hp, ?_⟩
+  have hl := inRange_length (d := d) hp
+  rw [offset_eq_lin p d hl.symm, ← linR_zeros d p hl, hk]
+
+/-! ## `next_position`, `end_position` -/
+
+/-- whole grid: from an in-range position that is not the last one, `next_position` yields the in-range
+    position whose offset is one larger. -/
+theorem next_linear {d p : Pos} (hd : d ≠ []) (hp : InRange d p) (h : offset p d + 1 < contents d) :
+    InRange d (next p (zeros d) d) ∧ offset (next p (zeros d) d) d = offset p d + 1 := by
+  have hl := inRange_length hp
+  have hne : zeros d ≠ [] := by
+    cases d <;> simp_all [zeros]
+  rw [offset_eq_lin p d hl.symm, contents_eq_prod, ← count_zeros d (inRange_nonNeg_size hp),
+    ← linR_zeros d p hl] at h
+  obtain ⟨h1, h2⟩ := (next_step hne hp).1 h
+  refine ⟨h1, ?_⟩
+  rw [offset_eq_lin _ d (inRange_length h1).symm, offset_eq_lin p d hl.symm,
+    ← linR_zeros d _ (inRange_length h1), ← linR_zeros d p hl]
+  exact h2
+
+/-- whole grid: from the last in-range position `next_position` yields exactly `end_position`. -/
+theorem next_last {d p : Pos} (hd : d ≠ []) (hp : InRange d p) (h : offset p d + 1 = contents d) :
+    next p (zeros d) d = endPos (zeros d) d := by
+  have hl := inRange_length hp
+  have hne : zeros d ≠ [] := by
+    cases d <;> simp_all [zeros]
+  rw [offset_eq_lin p d hl.symm, contents_eq_prod, ← count_zeros d (inRange_nonNeg_size hp),
+    ← linR_zeros d p hl] at h
+  exact (next_step hne hp).2 h
+
+/-- any sub-range: on a position of the box, `next_position` advances the box-relative linear index
+    `linR` by one and stays in the box, or (from the last position) yields `end_position`. -/
+theorem next_in_subrange {mn sp p : Pos} (hne : mn ≠ []) (hp : InBox mn sp p) :
+    (linR mn sp p + 1 < count mn sp →
+        InBox mn sp (next p mn sp) ∧ linR mn sp (next p mn sp) = linR mn sp p + 1) ∧
+    (linR mn sp p + 1 = count mn sp → next p mn sp = endPos mn sp) :=
+  next_step hne hp
+
+/-- the end sentinel is never a position of the range (the loop cannot stop early). -/
+theorem endPos_not_visited {mn sp : Pos} (hl : mn.length = sp.length) (hne : mn ≠ [])
+    (h : minLessSup mn sp = true) : ¬ InBox mn sp (endPos mn sp) := by
+  simp only [endPos, h, if_true]
+  exact endInit_not_inBox hl hne
+
+/-! ## position ranges -/
+
+/-- `min_less_sup` is the component-wise strict order. -/
+theorem minLessSup_spec (mn sp : Pos) (hl : mn.length = sp.length) :
+    minLessSup mn sp = true ↔ ∀ i (h1 : i < mn.length) (h2 : i < sp.length), mn[i] < sp[i] :=
+  minLessSup_iff mn sp hl
+
+/-- **iterate_enumerates**: for every static size `N ≥ 1` and every `min`, `sup`, the iterator loop
+    `for (it = begin(); it != end(); ++it)` terminates and visits exactly the list `box min sup`. -/
+theorem iterate_enumerates {mn sp : Pos} (hl : mn.length = sp.length) (hne : mn ≠ []) :
+    posRange mn sp = .ok (box mn sp) :=
+  posRange_eq_box hl hne
+
+/-- the visited positions are exactly those with `min ≤ p < sup` component-wise … -/
+theorem visited_iff {mn sp : Pos} (hl : mn.length = sp.length) (p : Pos) : p ∈ box mn sp ↔ InBox mn sp p :=
+  mem_box hl p
+
+/-- … each exactly once … -/
+theorem visited_once {mn sp : Pos} (hl : mn.length = sp.length) : (box mn sp).Nodup := nodup_box hl
+
+/-- … in row-major order of the sub-range (box-relative linear index 0, 1, 2, …) … -/
+theorem visited_in_order {mn sp : Pos} (hl : mn.length = sp.length) :
+    (box mn sp).map (linR mn sp) = ints 0 (box mn sp).length := by
+  rw [map_linR_box hl, length_box hl]
+
+/-- … `size()` (= `range_size`) many, and `range_size` is never negative … -/
+theorem size_eq_visited {mn sp : Pos} (hl : mn.length = sp.length) (hne : mn ≠ []) :
+    rangeSize mn sp = ((box mn sp).length : Int) := by
+  rw [rangeSize_eq_count hl hne, length_box hl]
+
+/-- … and none at all iff some component of `min` is not below `sup`. -/
+theorem visited_none_iff {mn sp : Pos} (hl : mn.length = sp.length) : box mn sp = [] ↔ minLessSup mn sp = false :=
+  box_eq_nil_iff hl
+
+/-- `range_dim` when `min < sup`: the component-wise difference, otherwise the null dimension. -/
+theorem rangeDim_spec (mn sp : Pos) :
+    rangeDim mn sp = if minLessSup mn sp then List.zipWith (fun m s => s - m) mn sp else zeros mn := rfl
+
+/-- the whole-grid range visits every in-range position exactly once **in storage order**:
+    the offsets of the visited positions are 0, 1, …, content-1. -/
+theorem whole_grid_storage_order {d : List Int} (hne : d ≠ []) (hd : NonNeg d) :
+    ∃ ps, posRangeAll d = .ok ps ∧ ps.map (fun p => offset p d) = ints 0 (contents d).toNat ∧
+      ps.Nodup ∧ ∀ p, p ∈ ps ↔ InRange d p := by
+  refine ⟨box (zeros d) d, posRangeAll_eq d hne, ?_, nodup_box (length_zeros d), mem_box (length_zeros d)⟩
+  rw [← length_box_zeros d hd, length_box (length_zeros d), ← map_linR_box (length_zeros d)]
+  apply List.map_congr_left
+  intro p hp
+  have hl := inRange_length ((mem_box (length_zeros d) p).mp hp)
+  rw [offset_eq_lin p d hl.symm, linR_zeros d p hl]
+
+/-- a sub-range that lies inside the grid (`0 ≤ min`, `sup ≤ size`) is visited in strictly increasing
+    storage offset. -/
+theorem subrange_storage_order {mn sp d : Pos} (h : Within mn sp d) :
+    ((box mn sp).map (fun p => offset p d)).Pairwise (· < ·) :=
+  box_pairwise_offset h
+
+/-! ## the grid object: `get_unsafe`, `at_optional`, constructors -/
+
+/-- `Denotes g v` says exactly: legal size, `content()` many cells, and `get_unsafe p` is `v p`
+    for every in-range `p`. -/
+theorem denotes_iff {α : Type} (g : Grid α) (v : Pos → α) :
+    Denotes g v ↔ g.size ≠ [] ∧ NonNeg g.size ∧ g.cells.length = (contents g.size).toNat ∧
+      ∀ p, InRange g.size p → g.getUnsafe p = .ok (v p) := by
+  constructor
+  · intro h
+    refine ⟨h.1, h.2.1, ?_, fun p hp => get_of_denotes h hp⟩
+    rw [h.2.2, List.length_map, length_box_zeros _ h.2.1]
+  · rintro ⟨hne, hd, hlen, hget⟩
+    refine ⟨hne, hd, ?_⟩
+    have hlen' : g.cells.length = (box (zeros g.size) g.size).length := by rw [length_box_zeros _ hd, hlen]
+    apply List.ext_getElem (by simpa using hlen')
+    intro j h1 h2
+    have hj : j < (box (zeros g.size) g.size).length := by simpa using h2
+    have hp := (mem_box (length_zeros g.size) _).mp (List.getElem_mem hj)
+    have hlin : lin (box (zeros g.size) g.size)[j] g.size = j := by
+      rw [← linR_zeros g.size _ (inRange_length hp)]
+      exact linR_getElem (length_zeros g.size) j hj
+    have hg := hget _ hp
+    unfold Grid.getUnsafe Grid.cellIndex at hg
+    rw [offset_eq_lin _ g.size (inRange_length hp).symm, hlin] at hg
+    simp only [Int.natCast_nonneg, Int.toNat_natCast, h1, and_self, if_true, bind, Except.bind,
+      List.getElem?_eq_getElem h1] at hg
+    rw [List.getElem_map]
+    injection hg
+
+/-- `object(size, value)`: every cell is the value. -/
+theorem mkConst_cell {α : Type} (d : List Int) (hne : d ≠ []) (hd : NonNeg d) (c : α) :
+    Denotes (Grid.mkConst d c) (fun _ => c) ∧ (Grid.mkConst d c).size = d :=
+  ⟨mkConst_denotes d hne hd c, rfl⟩
+
+/-- `object(size, function)`: the cell at every in-range position `p` is `f p`. -/
+theorem mkFn_cell {α : Type} (d : List Int) (hne : d ≠ []) (hd : NonNeg d) (f : Pos → α) :
+    ∃ g, Grid.mkFn d (fun p => pure (f p)) = .ok g ∧ g.size = d ∧ Denotes g f :=
+  ⟨_, (mkFn_denotes d hne hd _ f (fun _ _ => rfl)).1, rfl, (mkFn_denotes d hne hd (fun p => pure (f p)) f (fun _ _ => rfl)).2⟩
+
+/-- `in_range` (for an unsigned position: all components ≥ 0) is the in-range predicate. -/
+theorem inRange_spec {α : Type} (g : Grid α) {p : Pos} (hl : p.length = g.size.length) (hp : NonNeg p) :
+    g.inRange p = true ↔ InRange g.size p :=
+  inRangeDim_iff hl hp
+
+/-- **at_optional_iff_in_range**: `at_optional` yields the cell for exactly the in-range positions and
+    nothing otherwise; it never faults. -/
+theorem atOptional_iff_in_range {α : Type} {g : Grid α} {v : Pos → α} (hg : Denotes g v) {p : Pos}
+    (hl : p.length = g.size.length) (hp : NonNeg p) :
+    (InRange g.size p → g.atOptional p = .ok (some (v p))) ∧ (¬ InRange g.size p → g.atOptional p = .ok none) := by
+  rw [atOptional_of_denotes hg hl hp]
+  constructor <;> intro h <;> simp [h]
+
+/-- `get_unsafe` outside the grid's cells is a fault (undefined behaviour in C++), never a value. -/
+theorem getUnsafe_oob {α : Type} (g : Grid α) (p : Pos)
+    (h : ¬ (0 ≤ offset p g.size ∧ (offset p g.size).toNat < g.cells.length)) : g.getUnsafe p = .error .oob := by
+  simp [Grid.getUnsafe, Grid.cellIndex, h, bind, Except.bind]
+
+/-! ## cell-wise helpers -/
+
+/-- **resize_cell**: the result has the new size; its cell at `p` is the old cell if `p` is also a position
+    of the old grid and `init p` otherwise. -/
+theorem resize_cell {α : Type} {g : Grid α} {v : Pos → α} (hg : Denotes g v) (n : List Int)
+    (hne : n ≠ []) (hn : NonNeg n) (hl : n.length = g.size.length) (init : Pos → α) :
+    ∃ r, g.resize n init = .ok r ∧ r.size = n ∧
+      Denotes r (fun p => if InRange g.size p then v p else init p) :=
+  ⟨_, resize_denotes hg n hne hn hl init, rfl, hne, hn, rfl⟩
+
+/-- **map_cell**: same size, cell at `p` is `f` of the source cell at `p`. -/
+theorem map_cell {α β : Type} {g : Grid α} {v : Pos → α} (hg : Denotes g v) (f : α → β) :
+    ∃ r, g.map f = .ok r ∧ r.size = g.size ∧ Denotes r (fun p => f (v p)) :=
+  ⟨_, map_denotes hg f, rfl, hg.1, hg.2.1, rfl⟩
+
+/-- **apply_cell**: all grids of the same size: the result has that size and its cell at `p` is the function
+    applied to the cells at `p`. -/
+theorem apply_cell {α β : Type} (f : α → List α → β) {g1 : Grid α} {v1 : Pos → α} (h1 : Denotes g1 v1)
+    (gs : List (Grid α)) (vs : List (Pos → α)) (h : DenotesAll gs vs) (hs : ∀ g ∈ gs, g.size = g1.size) :
+    ∃ r, Grid.apply f g1 gs = .ok r ∧ r.size = g1.size ∧
+      Denotes r (fun p => f (v1 p) (vs.map fun v => v p)) :=
+  ⟨_, apply_denotes f h1 gs vs h hs, rfl, h1.1, h1.2.1, rfl⟩
+
+/-- `apply` on grids that are not all of the same size: the empty grid. -/
+theorem apply_size_mismatch {α β : Type} (f : α → List α → β) (g1 : Grid α) (gs : List (Grid α))
+    (hs : ∃ g ∈ gs, g.size ≠ g1.size) :
+    Grid.apply f g1 gs = .ok (Grid.empty g1.size.length) ∧ (Grid.empty g1.size.length : Grid β).cells = [] :=
+  ⟨apply_mismatch f g1 gs hs, rfl⟩
+
+/-- **fill_cell**: size unchanged, afterwards the cell at every in-range `p` is `f p`
+    (every cell is written, none outside). -/
+theorem fill_cell {α : Type} (g : Grid α) (hne : g.size ≠ []) (hd : NonNeg g.size)
+    (hlen : g.cells.length = (contents g.size).toNat) (f : Pos → α) :
+    ∃ r, g.fill f = .ok r ∧ r.size = g.size ∧ Denotes r f :=
+  ⟨_, fill_denotes g hne hd hlen f, rfl, hne, hd, rfl⟩
+
+/-- iterating a pos-ref range whose box lies inside the grid yields every position of the box with its cell. -/
+theorem posRefRange_cells {α : Type} {g : Grid α} {v : Pos → α} (hg : Denotes g v) {mn sp : Pos}
+    (hl : mn.length = sp.length) (hne : mn ≠ []) (hin : ∀ p, InBox mn sp p → InRange g.size p) :
+    g.posRefRange mn sp = .ok ((box mn sp).map fun p => (p, v p)) :=
+  posRefRange_of_denotes hg hl hne hin
+
+/-! ## clamp helpers -/
+
+/-- `clamped_min`: component-wise `max(p_i, 0)`. -/
+theorem clampedMin_spec (p : Pos) : clampedMin p = p.map (fun x => if x < 0 then 0 else x) := by
+  unfold clampedMin
+  apply List.map_congr_left
+  intro x _
+  by_cases h : x < 0 <;> simp only [h, if_true, if_false] <;> omega
+
+/-- `clamped_sup`: component-wise `min(p_i, size_i)`. -/
+theorem clampedSup_spec (p d : List Int) :
+    clampedSup p d = List.zipWith (fun x s => if s < x then s else x) p d := by
+  unfold clampedSup
+  congr 1
+  funext x s
+  by_cases h : s < x <;> simp only [h, if_true, if_false] <;> omega
+
+/-- `clamped_sup_signed` on a legal size never dereferences an empty optional and clamps every component
+    into `[0, size_i]`. -/
+theorem clampedSupSigned_spec (p d : List Int) (hd : NonNeg d) :
+    clampedSupSigned p d = .ok (List.zipWith (fun x s => if x < 0 then 0 else if s < x then s else x) p d) := by
+  rw [clampedSupSigned_eq p d hd]
+  congr 1
+  apply zipWith_congr_nonNeg _ _ p d hd
+  intro x s hs
+  by_cases h1 : x < 0 <;> by_cases h2 : s < x <;> simp only [h1, h2, if_true, if_false] <;> omega
+
+/-- a negative size component (impossible for an unsigned dimension) is the empty-optional fault. -/
+theorem clampUnsafe_fault (v lo hi : Int) (h : hi < lo) : clampUnsafe v lo hi = .error .emptyDeref := by
+  simp [clampUnsafe]; omega
+
+/-- the sub-range obtained from arbitrary signed `a`, `b` through `clamped_min` / `clamped_sup_signed` is
+    exactly the part of the requested box `[a, b)` that lies inside the grid — so a pos-ref range over it
+    only touches cells of the grid. -/
+theorem clamped_subrange (a b d : Pos) (hd : NonNeg d) (h1 : a.length = d.length) (h2 : b.length = d.length) :
+    ∃ sp, clampedSupSigned b d = .ok sp ∧ sp.length = d.length ∧
+      ∀ p, InBox (clampedMin a) sp p ↔ (InRange d p ∧ InBox a b p) :=
+  ⟨_, clampedSupSigned_eq b d hd, by simp [h2], fun p => inBox_clamped a b d p hd h1 h2⟩
+
+/-! ## Non-vacuity: the hypotheses are met by concrete, non-trivial values -/
+
+example : InRange [3, 2] [2, 1] ∧ offset [2, 1] [3, 2] = 5 ∧ contents [3, 2] = 6 := by decide
+example : next [2, 0] (zeros [3, 2]) [3, 2] = [0, 1] ∧ next [2, 1] (zeros [3, 2]) [3, 2] = endPos (zeros [3, 2]) [3, 2] := by decide
+-- a 3-D signed sub-range with a one-wide dimension
+example : posRange [-1, 0, 2] [1, 1, 4] = .ok [[-1, 0, 2], [0, 0, 2], [-1, 0, 3], [0, 0, 3]] := by rfl
+-- inverted in the middle coordinate: nothing is visited although the other coordinates are fine
+example : posRange [0, 2, 0] [2, 1, 2] = .ok [] ∧ rangeSize [0, 2, 0] [2, 1, 2] = 0 := ⟨by rfl, by decide⟩
+-- without the reset to `min` the carry would leave the box: the model's carry really resets
+example : next [1, 0] [0, 0] [2, 2] = [0, 1] := by decide
+example : Within [1, 0] [3, 2] [3, 2] := by simp [Within]
+example : NonNeg [3, 0, 2] ∧ contents [3, 0, 2] = 0 := by
+  refine ⟨?_, by decide⟩; intro x hx; simp at hx; omega
+example : Denotes (⟨[2, 2], [10, 11, 12, 13]⟩ : Grid Int) (fun p => 10 + lin p [2, 2]) := by
+  refine ⟨by simp, ?_, by decide⟩; intro x hx; simp at hx; omega
+
+end Fcppt.C08
